@@ -7,7 +7,9 @@ from layers.driver import layer_istep, layer_driver
 
 MODULE = 'Flowdyn.Props.C06'
 THEOREMS = core.theorems_in(['C06.lean'], 'Flowdyn.C06')
-PARTIAL = {"nonlinear Jacobian": "that the finite-difference Jacobian equals the derivative of a general nonlinear operator is a first-order statement in the perturbation: explored numerically against central differences (Burgers, Euler), not proved"}
+AUDIT_IMPORTS = ['Flowdyn.Props.C06c']
+THEOREMS = THEOREMS + [t for t in core.theorems_in(['C06c.lean'], 'Flowdyn.C06') if '.FdEx.' not in t]
+PARTIAL = {"nonlinear Jacobian": "proved over the reals (C06c): each entry of the model's fdJac converges to the partial derivative iff the line derivative exists (fdJac_tendsto_iff; one-sided version for the code's positive eps), equals it up to c*eps exactly for quadratic lines and up to M|eps|/2 for Lipschitz derivatives (fdJac_error_bound*), and the theta-step with the FD Jacobian converges to the exactly linearised step (thetaStep_fdJac_error, thetaStep_fdJac_tendsto); differentiability of the concrete flowdyn residuals (false at limiter/upwind kinks) stays a hypothesis and is explored numerically"}
 LEVEL_NOTE = "np.linalg.solve is a parameter assumed to return a solution of the system formed; theorems on affine problems over any field; amplification factors over the complex numbers"
 
 
